@@ -121,7 +121,9 @@ pub fn expand_flow(
 
             FLOWS.remove(deps.storage, (flow.start_epoch, flow.flow_id));
 
-            let flow_amount_default_value = (flow_asset.amount, 0u64);
+            // if the flow was never expanded there is no asset history, the amount the flow holds
+            // is its own flow asset amount (not the amount it is being expanded with).
+            let flow_amount_default_value = (flow.flow_asset.amount, 0u64);
 
             let (_, (flow_amount, _)) = flow
                 .asset_history
